@@ -7,6 +7,7 @@ PAYLOADS = ["pl", "a==b", "==", "SELECT", "CURRENT DATE", "CURRENT TIMESTAMP x",
             "a'b", 'a"b', "a`b", "*/", "\n",
             "cross", "USING", "sort", "Distribute", "cluster", "left", "join", "on", "as", "limit", "union", "where", "order", "group", "partition", "over", "null", "true", "and", "not", "in", "is",
             "total\n", "\nx", "x\n\n", "x ", " x", "x\t", "x\r", "x\u3000", "x.", ".x", "903", "1x", "x-1", "_", "$", "a b c",
+            "caſe", "exıſtſ", "ıſ", "ﬁrst", "straße", "İd", "\u212a", "ſelect", "uſıng",
             "a\\tb", "\\d+", "C:\\\\dir", "\\\\", "x\\%y", "\\n\\r", "\\", "ab\\"]
 # region kind -> (open, close, forbidden substrings)
 REGIONS = {"sq": ("'", "'", ["'"]), "dq": ('"', '"', ['"']), "bq": ("`", "`", ["`"]), "block": ("/*", "*/", ["*/", "*"]),
